@@ -15,6 +15,7 @@ pub mod c11;
 pub mod c12;
 pub mod c13;
 pub mod c14;
+pub mod c15;
 
 pub fn run(prop: &str, cfg: &Cfg, rep: &mut Report) -> bool {
     match prop {
@@ -32,6 +33,7 @@ pub fn run(prop: &str, cfg: &Cfg, rep: &mut Report) -> bool {
         "C12" => c12::run(cfg, rep),
         "C13" => c13::run(cfg, rep),
         "C14" => c14::run(cfg, rep),
+        "C15" => c15::run(cfg, rep),
         _ => return false,
     }
     true
